@@ -1760,6 +1760,10 @@ class Interp:
             return
         if self.is_logging(node.value):
             return
+        if isinstance(node.value, ast.GeneratorExp):
+            # a generator expression that nobody consumes runs nothing: its body has no effect
+            self.log("generator.discarded", node.value)
+            return
         self.eval(node.value)
 
     def is_logging(self, e):
